@@ -12,6 +12,12 @@ Record spanobs := {
   s_collectors : list nat              (* nodes whose collector received the span *)
 }.
 
+(* a history on ONE long-lived sharder: membership changes (the peer service calls its callback, loadPeerList runs)
+   and lookups; [fresh] is what a sharder freshly started on the list in force answers for the same id *)
+Inductive hstep :=
+| HSet (l : list nat)                       (* UpdatePeers(l): l = [] is refused by loadPeerList, the old list stays *)
+| HLook (tid : nat) (own fresh : nat).      (* WhichShard(c_tids[tid]) on the long-lived / on a fresh sharder *)
+
 Record case := {
   c_peers : list addr;                 (* the peer addresses *)
   c_perms : list (list nat);           (* per sharder instance / node: the order in which it was given the peers *)
@@ -22,7 +28,9 @@ Record case := {
   c_hlists : list (list (N * nat));    (* the distinct d.hashes lists observed *)
   c_obs_hashes : list nat;             (* per instance: index into c_hlists *)
   c_obs_owner : list (list nat);       (* per instance: WhichShard(t) for t in c_tids ++ extra ids *)
-  c_spans : list spanobs
+  c_spans : list spanobs;
+  c_hist_start : list nat;             (* the list the long-lived sharder was started with *)
+  c_hist : list hstep
 }.
 
 Fixpoint slookup {V} (k : string) (m : list (string * V)) : option V :=
@@ -109,7 +117,17 @@ Section WithCase.
     str_list_eqb (match col with Some o => [o] | None => [] end) (map pa (s_collectors s)) &&
     Nat.leb (length hops) 1.
 
-  Definition model_agrees : bool := sharders_agree && forallb span_agrees (c_spans c).
+  (* the history against the model: every lookup equals the model's owner for the list IN FORCE *)
+  Fixpoint hist_agrees (cur : list nat) (h : list hstep) : bool :=
+    match h with
+    | [] => true
+    | HSet l :: r => hist_agrees (match l with [] => cur | _ => l end) r
+    | HLook t own _ :: r =>
+        String.eqb (m_which (map pa cur) (nth t (c_tids c) EmptyString)) (pa own) && hist_agrees cur r
+    end.
+
+  Definition model_agrees : bool :=
+    sharders_agree && forallb span_agrees (c_spans c) && hist_agrees (c_hist_start c) (c_hist c).
 
   (* ---------- property monitor on the implementation's observations only ---------- *)
   Definition nat_list_eqb := list_eqb Nat.eqb.
@@ -139,12 +157,24 @@ Section WithCase.
     | [] => false
     end.
 
+  (* 15: after a membership change the long-lived sharder answers differently from a fresh one on the same list *)
+  Definition no_stale_owner : bool :=
+    forallb (fun st => match st with HLook _ own fresh => own_eqb own fresh | HSet _ => true end) (c_hist c).
+  (* 11 (history): an owner outside the list in force *)
+  Fixpoint hist_in_peers (cur : list nat) (h : list hstep) : bool :=
+    match h with
+    | [] => true
+    | HSet l :: r => hist_in_peers (match l with [] => cur | _ => l end) r
+    | HLook _ own _ :: r => existsb (own_eqb own) cur && hist_in_peers cur r
+    end.
+
   Definition monitor : codes :=
     (if owners_agree then [] else [10%N]) ++
-    (if owners_in_peers then [] else [11%N]) ++
+    (if owners_in_peers && hist_in_peers (c_hist_start c) (c_hist c) then [] else [11%N]) ++
     (if forallb single_hop (c_spans c) then [] else [12%N]) ++
     (if forallb no_self_forward (c_spans c) then [] else [13%N]) ++
-    (if forallb collected_by_owner (c_spans c) then [] else [14%N]).
+    (if forallb collected_by_owner (c_spans c) then [] else [14%N]) ++
+    (if no_stale_owner then [] else [15%N]).
 End WithCase.
 
 Definition check (c : case) : codes :=
